@@ -206,7 +206,7 @@ struct Acc {
 }
 
 /// Minimises `scn` while a violation of `prop` with oracle `oracle` persists.
-pub fn minimise<E: Engine>(engine: &E, scn: &E::Scn, prop: &str, oracle: &str, budget: usize) -> (E::Scn, usize) {
+pub fn minimise<E: Engine>(engine: &E, scn: &E::Scn, prop: &str, oracle: &str, sig: &str, budget: usize) -> (E::Scn, usize) {
   let mut best = scn.clone();
   let mut tried = 0usize;
   'outer: loop {
@@ -216,7 +216,7 @@ pub fn minimise<E: Engine>(engine: &E, scn: &E::Scn, prop: &str, oracle: &str, b
       tried += 1;
       let out = engine.run(&cand, prop);
       if out.harness_error.is_some() { continue; }
-      if out.violations.iter().any(|v| v.concerns(prop) && v.oracle == oracle) {
+      if out.violations.iter().any(|v| v.concerns(prop) && v.oracle == oracle && v.sig == sig) {
         best = cand;
         continue 'outer;
       }
@@ -397,9 +397,9 @@ pub fn run_check<E: Engine>(engine: &E, spec: &CheckSpec, tier: &str) -> i32 {
   }
   if exit == 0 {
     if let Some((config, index, run_seed, scn, v)) = &found {
-      let (min_scn, tried) = minimise(engine, scn, prop, &v.oracle, 3000);
+      let (min_scn, tried) = minimise(engine, scn, prop, &v.oracle, &v.sig, 3000);
       let min_out = engine.run(&min_scn, prop);
-      let min_v = min_out.violations.iter().find(|x| x.concerns(prop) && x.oracle == v.oracle).cloned().unwrap_or_else(|| v.clone());
+      let min_v = min_out.violations.iter().find(|x| x.concerns(prop) && x.oracle == v.oracle && x.sig == v.sig).cloned().unwrap_or_else(|| v.clone());
       let dir = format!("{VERIF_DIR}/replays");
       let _ = std::fs::create_dir_all(&dir);
       let path = format!("{dir}/{prop}-{master}-{config}-{index}.json");
